@@ -146,7 +146,12 @@ def independent_oracle(sc, env, mark, waits, first_round, order) -> List[Dict[st
     notices = {s: [k for k in env.received[s][mark[s]:] if k[0] == "failed" and k[2] == mt] for s in env.received}
     # who should hold the notices: live, writable FAILED_MESSAGE subscribers (F, S1 by subscription; A, L via ALL)
     holders = [s for s in ("F", "S1", "A", "L") if s not in sc["dead"] and (s not in sc["nw"] or s == "L")]
+    # a peer that has closed makes a send fail only once the kernel knows: after a FIN the first `grace` send calls
+    # still succeed (into the void) - with grace >= 2 both sends of this frame do and nothing can be noticed yet
+    send_fails = sc["how"] == "rst" or sc["grace"] < 2
     for s in eligible:
+        if s in sc["dead"] and not send_fails:
+            continue
         undeliverable = (s in sc["dead"]) or (s in sc["nw"] and s != "L")
         if not undeliverable:
             if got_msg.get(s, 0) != 1:
